@@ -35,16 +35,24 @@ def common_mutator(row, out, allow_panic=False):
     """Frame conditions shared by every mutator-side primitive (barriers, trace, upgrade, ...)."""
     probs = []
     early = early_destructs(row, out)
+    # user code (a destructor, a Collect::trace) that a mutator-side primitive ran ahead of time may panic: that
+    # panic, and the unwinding exit it causes, belong to the same timing problem, not to the collector's own code
+    user_panics = [e for e in out.panics() if str(e[1]).startswith("user ")]
+    ran_user_code = bool(early) or out.has("trace_value") or out.has("user_trace")
+    own_panics = [e for e in out.panics() if e not in user_panics or not ran_user_code]
     if not allow_panic and out.panics():
-        probs.append("panics: %s" % (out.panics(),))
+        probs.append("%spanics: %s" % ("" if own_panics else "[timing] ", out.panics(),))
     if out.kind not in ("return",) and not allow_panic:
-        # unwinding out of a user destructor that an early destruct invoked is part of the same timing problem
-        probs.append("%sexit kind %s" % ("[timing] " if early and not out.panics() else "", out.kind))
+        probs.append("%sexit kind %s" % ("[timing] " if (ran_user_code and not own_panics) else "", out.kind))
     for name in ("dropped", "freed", "use_after_free", "double_drop", "double_free", "trace_value", "user_trace",
                  "unreachable_reached"):
         if out.has(name):
             only_early = name == "dropped" and all(e[1] in early for e in out.events("dropped"))
-            probs.append("%sevent %s in a mutator-side primitive" % ("[timing] " if only_early else "", name))
+            # marking work done eagerly inside a mutator-side primitive (an object is traced and blackened on the
+            # spot): wrong *time* for collection work (C03), but the marking itself is sound
+            eager_mark = name in ("trace_value", "user_trace") and all(
+                out.post["objs"].get(e[1], {}).get("colour") in ("B", "G") for e in out.events("trace_value"))
+            probs.append("%sevent %s in a mutator-side primitive" % ("[timing] " if (only_early or eager_mark) else "", name))
     d = diff(row, out)
     for k in d:
         if k[0] == "ctx" and k[1] in ("phase", "all", "sweep", "sweep_prev"):
@@ -119,8 +127,9 @@ def credit_consistency(row, out):
     if any(n == "?" for (k, n) in m):
         probs.append("metric event with a non-constant count")
     traced = sum(n for (k, n) in m if k == "traced" and n != "?")
-    if traced:
-        probs.append("[credits-over] `traced` credited %d time(s) by a primitive that traces no object" % traced)
+    did_trace = len(out.events("trace_value"))
+    if traced > did_trace:
+        probs.append("[credits-over] `traced` credited %d time(s) by a primitive that traced %d object(s)" % (traced, did_trace))
     for other in ("remembered", "dropped", "freed", "allocated"):
         c = sum(n for (k, n) in m if k == other and n != "?")
         if c:
@@ -224,7 +233,8 @@ def spec_resurrect(row):
         if row.pre["colour"] in WHITE:
             if post["colour"] in WHITE:
                 probs.append("dead object still dead after resurrect")
-            if post["colour"] == "B" and row.pre["nt"] == 1:
+            traced_now = any(e[1] == 1 for e in out.events("trace_value"))
+            if post["colour"] == "B" and row.pre["nt"] == 1 and not traced_now:
                 probs.append("resurrected tracing object blackened without queueing: its closure is not marked")
             if not (list(out.post["gray"]) + list(out.post["gray_again"])):
                 probs.append("[reporting] reviving a dead object leaves no pending mark work: the arena keeps reporting "
